@@ -107,7 +107,13 @@ type Exec struct {
 	concreteSolverCalls int
 	GlobalFacts         []*Term
 	freshErrs           []*Term
+	sumRules            []sumRule
+	lastMapOld          Value
+	curFrame            *Frame
+	curNode             ast.Node
+	inSpec              int
 	ioErrAxiomDone      bool
+	pathAxiomsDone      bool
 	assignSrcType       types.Type
 	lockRules           []lockRule
 	guardRules          []guardRule
@@ -277,7 +283,13 @@ func (x *Exec) constValue(t types.Type, v constant.Value) Value {
 				return IntV{IntLit(i)}
 			}
 		}
-		return OpaqueV{T: App("floatconst_"+sanitize(v.ExactString()), SInt), Type: t}
+		o := OpaqueV{T: App("floatconst_"+sanitize(v.ExactString()), SInt), Type: t}
+		if n, ok1 := new(big.Int).SetString(constant.Num(v).ExactString(), 10); ok1 {
+			if d, ok2 := new(big.Int).SetString(constant.Denom(v).ExactString(), 10); ok2 && d.Sign() > 0 {
+				o.Num, o.Den = BigLit(n), d
+			}
+		}
+		return o
 	}
 	panic(x.unsupported("constant kind"))
 }
@@ -592,6 +604,7 @@ func (x *Exec) heapLoad(st *State, p PtrV) Value {
 	if p.LV != nil {
 		return p.LV.Load(x, st)
 	}
+	x.guardCheck(st, p.Prefix, p.Addr, false)
 	v := x.fromLeaves(p.Elem, "", func(li leafInfo) *Term {
 		if li.Kind == "off" {
 			// views stored in the heap are normalised to offset 0 (see rebase)
@@ -729,6 +742,7 @@ func (x *Exec) heapStore(st *State, p PtrV, v Value) {
 		p.LV.Store(x, st, v)
 		return
 	}
+	x.guardCheck(st, p.Prefix, p.Addr, true)
 	v = x.rebase(st, v)
 	var ls []struct {
 		Path string
@@ -845,6 +859,11 @@ func (x *Exec) mapSet(st *State, m MapV, key *Term, v Value) {
 	ks := mapKeyStr(m)
 	presArr := st.heapArr(ks+"#present", ArrOf(SBool))
 	was := Select(Select(presArr, m.ID), key)
+	x.lastMapOld = nil
+	if x.sumRuleFor(m) != nil {
+		x.lastMapOld, _ = x.mapGet(st, m, key)
+	}
+	x.guardCheck(st, ks, m.ID, true)
 	st.heap[ks+"#present"] = Store(presArr, m.ID, Store(Select(presArr, m.ID), key, TTrue))
 	card := st.heapArr(ks+"#card", SInt)
 	st.heap[ks+"#card"] = Store(card, m.ID, Add(Select(card, m.ID), Ite(was, IntLit(0), IntLit(1))))
@@ -867,6 +886,7 @@ func (x *Exec) mapSet(st *State, m MapV, key *Term, v Value) {
 
 func (x *Exec) mapDelete(st *State, m MapV, key *Term) {
 	ks := mapKeyStr(m)
+	x.guardCheck(st, ks, m.ID, true)
 	presArr := st.heapArr(ks+"#present", ArrOf(SBool))
 	was := Select(Select(presArr, m.ID), key)
 	old, _ := x.mapGet(st, m, key)
@@ -937,6 +957,7 @@ func (x *Exec) expr(fr *Frame, e ast.Expr, st *State, k func(*State, Value)) {
 		return
 	}
 	x.tsub = fr.tsubst
+	x.curFrame, x.curNode = fr, e
 	info := fr.pkg.TypesInfo
 	if tv, ok := info.Types[e]; ok && tv.Value != nil {
 		k(st, x.constValue(x.resolveType(tv.Type), tv.Value))
@@ -1243,6 +1264,23 @@ func (x *Exec) binop(fr *Frame, st *State, n ast.Node, op token.Token, va, vb Va
 	ib, okB := vb.(IntV)
 	if !okA || !okB {
 		// floats and other opaque arithmetic
+		if fa, ok := va.(OpaqueV); ok {
+			if fb, ok := vb.(OpaqueV); ok && fa.Num != nil && fb.Num != nil {
+				switch op {
+				case token.MUL:
+					x.Trusted["float64 arithmetic treated as exact rational arithmetic"] = true
+					return OpaqueV{T: App("fmul", SInt, fa.T, fb.T), Type: rt, Num: Mul(fa.Num, fb.Num), Den: new(big.Int).Mul(fa.Den, fb.Den)}
+				case token.LSS:
+					return BoolV{Lt(Mul(fa.Num, BigLit(fb.Den)), Mul(fb.Num, BigLit(fa.Den)))}
+				case token.LEQ:
+					return BoolV{Le(Mul(fa.Num, BigLit(fb.Den)), Mul(fb.Num, BigLit(fa.Den)))}
+				case token.GTR:
+					return BoolV{Gt(Mul(fa.Num, BigLit(fb.Den)), Mul(fb.Num, BigLit(fa.Den)))}
+				case token.GEQ:
+					return BoolV{Ge(Mul(fa.Num, BigLit(fb.Den)), Mul(fb.Num, BigLit(fa.Den)))}
+				}
+			}
+		}
 		oa, ob := x.asTerm(va), x.asTerm(vb)
 		switch op {
 		case token.LSS, token.LEQ, token.GTR, token.GEQ:
